@@ -25,6 +25,21 @@ pub struct Cfg {
     pub record: bool,
     /// C09: the history alphabet includes one undecodable answer per history
     pub garbage: bool,
+    /// restrict the menu events to these (None = all)
+    pub menu: Option<Vec<usize>>,
+}
+
+impl Cfg {
+    fn steps(&self, sys: &System) -> Vec<Step> {
+        let mut v = sys.enabled(self.max_out, self.garbage);
+        if let Some(menu) = &self.menu {
+            v.retain(|s| match s {
+                Step::Ev(i) => menu.contains(i),
+                _ => true,
+            });
+        }
+        v
+    }
 }
 
 #[derive(Default)]
@@ -117,7 +132,7 @@ pub fn node(cfg: &Cfg, v: &dyn Visitor, path: &mut Vec<Step>, st: &mut Stats) {
         st.leaves += 1;
         return;
     }
-    let enabled = sys.enabled(cfg.max_out, cfg.garbage);
+    let enabled = cfg.steps(&sys);
     drop(sys);
     for s in enabled {
         path.push(s);
@@ -164,6 +179,7 @@ pub fn run(cfg: &Cfg, v: &dyn Visitor, sample_cap: usize) -> Stats {
                 min_frontier: cfg.min_frontier,
                 record: cfg.record,
                 garbage: cfg.garbage,
+                menu: cfg.menu.clone(),
             };
             let mut st = Stats {
                 samples: Some(Samples::new(2)),
@@ -175,7 +191,7 @@ pub fn run(cfg: &Cfg, v: &dyn Visitor, sample_cap: usize) -> Stats {
             let mut next = vec![];
             if st.failed_nodes == 0 {
                 let (sys, _) = replay_cfg(cfg, p, usize::MAX);
-                for s in sys.enabled(cfg.max_out, cfg.garbage) {
+                for s in cfg.steps(&sys) {
                     let mut c = p.clone();
                     c.push(s);
                     next.push(c);
